@@ -65,3 +65,55 @@ def exc_sig(e):
     fr = tb[-1] if tb else None
     where = f"{fr.filename.split('/')[-1]}:{fr.name}" if fr else "?"
     return f"{type(e).__name__}@{where}"
+
+
+def key(o):
+    return "(%d,%d,%d,%d)" % tuple(o)
+
+
+def same_bits(a, b):
+    """Bit-for-bit equality of two result objects (x, Q2, order keys and their order, values, errors)."""
+    if list(a.orders.keys()) != list(b.orders.keys()):
+        return False, f"order keys differ: {list(a.orders.keys())} vs {list(b.orders.keys())}"
+    for o in a.orders:
+        for t in (0, 1):
+            x, y = np.asarray(a.orders[o][t]), np.asarray(b.orders[o][t])
+            if x.shape != y.shape or not np.array_equal(x, y, equal_nan=True):
+                d = float(np.max(np.abs(x - y))) if x.shape == y.shape else float("nan")
+                return False, f"order {key(o)} {'values' if t == 0 else 'errors'} differ (max |diff| {d:.3g}, max |a| {absmax(x):.3g})"
+    return True, ""
+
+
+def cmp_results(a, combo, rtol, atol=0.0, what="values"):
+    """Compare result `a` with a linear combination `combo` = [(coef, result), ...] for every order key.
+
+    Returns (margin, n_compared, n_nonzero_orders, worst_description).  Scale = sum |coef|*max|tensor| per order.
+    A key missing on one side counts as a zero tensor.
+    """
+    keys = list(a.orders.keys())
+    for _, r in combo:
+        for o in r.orders:
+            if o not in keys:
+                keys.append(o)
+    margin, n, nz, worst = 0.0, 0, 0, ""
+    for o in keys:
+        shape = None
+        for r in [a] + [r for _, r in combo]:
+            if o in r.orders:
+                shape = np.asarray(r.orders[o][0]).shape
+        got = np.asarray(a.orders[o][0]) if o in a.orders else np.zeros(shape)
+        exp = np.zeros(shape)
+        scale = absmax(got) * 0.0
+        for c, r in combo:
+            if o in r.orders:
+                v = np.asarray(r.orders[o][0])
+                exp = exp + c * v
+                scale += abs(c) * absmax(v)
+        m, d = cmp(got, exp, scale, rtol, atol)
+        n += got.size
+        if scale > 0:
+            nz += 1
+        if m > margin:
+            margin = m
+            worst = f"order {key(o)}: max |obs-exp| = {d:.3g} at scale {scale:.3g} (obs max {absmax(got):.3g})"
+    return margin, n, nz, worst
